@@ -11,43 +11,46 @@ import (
 
 // Profile steers the scenario generator of one property.
 type Profile struct {
-	Weights     map[string]int // op kind -> weight
-	MinBlocks   int
-	MaxBlocks   int
-	MaxTxs      int // per block
-	MaxOps      int // per tx
-	PUpper      int // percent of ops using the upper-case address spelling
-	PActor      int // percent of ops with an explicit (possibly unentitled) actor
-	PNamed      int // percent of ops naming another account than the signer
-	PFault      int // percent of txs with a signing fault
-	PExec       int // percent of txs wrapped in MsgExec
-	PGovParams  int // percent of blocks that carry a governance parameter change
-	PBadRef     int // percent of refs that are unknown / zero
-	BigAmounts  bool
-	Vesting     bool
-	TinyLimits  bool
-	ValidParams bool // governance patches are always valid structures
+	Weights        map[string]int // op kind -> weight
+	MinBlocks      int
+	MaxBlocks      int
+	MaxTxs         int // per block
+	MaxOps         int // per tx
+	PUpper         int // percent of ops using the upper-case address spelling
+	PActor         int // percent of ops with an explicit (possibly unentitled) actor
+	PNamed         int // percent of ops naming another account than the signer
+	PFault         int // percent of txs with a signing fault
+	PExec          int // percent of txs wrapped in MsgExec
+	PGovParams     int // percent of blocks that carry a governance parameter change
+	PBadRef        int // percent of refs that are unknown / zero
+	BigAmounts     bool
+	Vesting        bool
+	TinyLimits     bool
+	ValidParams    bool // governance patches are always valid structures
 	EntDenomChange bool // governance may change the enterprise denomination
-	LongTime    bool // allow day/year block gaps
-	FeeModes    []int
-	DupSigners  bool
-	GovKinds    []string // which modules' parameters governance changes (default: all four)
-	PCheck      int      // percent of txs that are submitted to CheckTx only (mempool admission)
-	SlotRules   []int    // override of the storage-purchase slot rules
-	PGranter    int      // percent of txs that name a fee granter (one who granted the payer an allowance, if any)
-	SteerExport bool     // C15: the block before the export point raises an order and funds a stream
-	PBulk       int      // per-mille of txs that are repeated 100-260 times in a row (bulk populations)
-	LockedActors bool    // registrations are preferably made by accounts that hold locked eFUND
-	PSameKind   int      // percent of follow-up messages in a multi-message tx that repeat the first message's kind, actor and target
-	Crashes     bool     // blocks carry restart points (C01)
-	GasSweep    bool     // some txs get a gas limit that runs out at an ante / message boundary
-	MultiPct    int      // percent of txs with several messages (default 10)
-	ManyDenoms  bool     // genesis balances in additional denominations sorting before, around and after the native one
-	PExecTail   int      // percent of multi-message txs whose messages after the first are nested in a MsgExec of the first signer
-	PEscrow     int      // percent of stream creations / bank sends aimed at a module account (gov, the two escrows), lower or upper case
-	PRetry      int      // percent of record/purchase operations that retry an earlier rolled-back attempt (same party, same identifier)
-	PForward    int      // percent of follow-up messages after a registration that use that registration (forward reference)
-	PFeePayer   int      // percent of txs with an explicit co-signing fee payer (AuthInfo.Fee.Payer)
+	LongTime       bool // allow day/year block gaps
+	FeeModes       []int
+	DupSigners     bool
+	GovKinds       []string // which modules' parameters governance changes (default: all four)
+	PCheck         int      // percent of txs that are submitted to CheckTx only (mempool admission)
+	SlotRules      []int    // override of the storage-purchase slot rules
+	PGranter       int      // percent of txs that name a fee granter (one who granted the payer an allowance, if any)
+	SteerExport    bool     // C15: the block before the export point raises an order and funds a stream
+	PBulk          int      // per-mille of txs that are repeated 100-260 times in a row (bulk populations)
+	LockedActors   bool     // registrations are preferably made by accounts that hold locked eFUND
+	PSameKind      int      // percent of follow-up messages in a multi-message tx that repeat the first message's kind, actor and target
+	Crashes        bool     // blocks carry restart points (C01)
+	GasSweep       bool     // some txs get a gas limit that runs out at an ante / message boundary
+	MultiPct       int      // percent of txs with several messages (default 10)
+	ManyDenoms     bool     // genesis balances in additional denominations sorting before, around and after the native one
+	PExecTail      int      // percent of multi-message txs whose messages after the first are nested in a MsgExec of the first signer
+	PEscrow        int      // percent of stream creations / bank sends aimed at a module account (gov, the two escrows), lower or upper case
+	PRetry         int      // percent of record/purchase operations that retry an earlier rolled-back attempt (same party, same identifier)
+	PForward       int      // percent of follow-up messages after a registration that use that registration (forward reference)
+	NodeMinGas     bool     // the node may have a minimum-gas-prices setting (mempool policy), and CheckTx-only txs vary their gas limit
+	RegDenomMix    bool     // genesis: the WRKChain / BEACON fee denomination may differ from the enterprise denomination
+	PReimport      int      // percent of blocks (after the first) before which the network is restarted from an exported genesis
+	PFeePayer      int      // percent of txs with an explicit co-signing fee payer (AuthInfo.Fee.Payer)
 }
 
 // rapid's integer generators are deliberately biased towards small values and
@@ -189,6 +192,9 @@ func GenGenesis(t *rapid.T, p *Profile) lab.GenesisCfg {
 			FeePur:  pick(t, []uint64{5, 5, 1, 1000, 2}, tag+"FeePur"),
 			Denom:   "nund",
 			StartID: pick(t, []uint64{1, 1, 7, 1 << 32, 253, 254, 255, 65534, 65535, 1<<32 - 2}, tag+"Start"),
+		}
+		if p.RegDenomMix && oneIn(t, 5, tag+"Denom") {
+			r.Denom = pick(t, []string{"stake", "atto"}, tag+"DenomV")
 		}
 		if oneIn(t, 5, tag+"Prepop") {
 			r.Prepop = uniRange(t, 1, 3, tag+"PrepopN")
@@ -403,7 +409,7 @@ func GenParams(t *rapid.T, p *Profile, kind string, nAcc int) *ParamsPatch {
 		pp.TimeLimit = pick(t, []uint64{5, 6, 10, 30, 200, 1, ^uint64(0)}, "limit")
 		pp.Denom = "nund"
 		if oneIn(t, 3, "entSteer") {
-			pp.Steer = uniRange(t, 1, 2, "entSteerKind")
+			pp.Steer = uniRange(t, 1, 3, "entSteerKind")
 		}
 		if p.EntDenomChange && oneIn(t, 4, "entDenom") {
 			pp.Denom = pick(t, denomsValid, "entDenomV")
@@ -502,11 +508,17 @@ func GenScenario(t *rapid.T, p *Profile) *Scenario {
 	if len(feeModes) == 0 {
 		feeModes = []int{FeeExact}
 	}
+	if p.NodeMinGas && oneIn(t, 3, "nodeMinGas") {
+		s.MinGasPrices = pick(t, []string{"0.0001nund", "0.00002nund", "25.0nund", "0.0001nund,0.001stake", "0.004nund"}, "nodeMinGasV")
+	}
 	for b := 0; b < nb; b++ {
 		blk := Block{DtMs: genDt(t, p, &s.Gen)}
 		if oneIn(t, 7, "dtToZero") {
 			blk.DtRule = pick(t, []int{1, 1, 2}, "dtRule")
 			blk.DtRef = uniRange(t, 0, 5, "dtRef")
+		}
+		if b > 0 && p.PReimport > 0 && pct(t, p.PReimport, "reimport") {
+			blk.Reimport = true
 		}
 		ntx := uniRange(t, 0, p.MaxTxs, "nTxs")
 		for i := 0; i < ntx; i++ {
@@ -564,6 +576,9 @@ func GenScenario(t *rapid.T, p *Profile) *Scenario {
 			}
 			if p.GasSweep && oneIn(t, 8, "lowGas") {
 				tx.Gas = uint64(pick(t, []int{1, 1000, 20000, 40000, 55000, 60000, 70000, 80000, 90000, 100000, 120000, 150000}, "gas"))
+			}
+			if p.NodeMinGas && tx.Check && oneIn(t, 3, "checkGas") {
+				tx.Gas = uint64(pick(t, []int{200000, 400000, 1000000, 10000000, 50000000, 250000}, "checkGasV"))
 			}
 			if p.PBulk > 0 && !tx.Check && uni(t, 1000, "bulk") >= 1000-p.PBulk {
 				tx.Repeat = pick(t, []int{100, 101, 101, 130, 260}, "bulkN")
